@@ -137,6 +137,11 @@ _dispatch_data_destroy_buffer(const void* buffer, size_t size,
 		mach_vm_size_t vm_size = size;
 		mach_vm_address_t vm_addr = (uintptr_t)buffer;
 		mach_vm_deallocate(mach_task_self(), vm_addr, vm_size);
+#elif !defined(_WIN32)
+	} else if (destructor == DISPATCH_DATA_DESTRUCTOR_MUNMAP) {
+		// without Mach this is a destructor of its own (with Mach it is an
+		// alias of DISPATCH_DATA_DESTRUCTOR_VM_DEALLOCATE)
+		(void)dispatch_assume_zero(munmap((void*)buffer, size));
 #else
 		(void)size;
 #endif
